@@ -210,7 +210,13 @@ def run_case(case):
 
     loop = desper.SimpleLoop(clock)
     old_default = desper.default_loop
-    desper.default_loop = loop
+    # the loop under test is the default loop only when some request relies
+    # on it; otherwise desper.default_loop stays another, idle, loop (every
+    # switch() then carries from_world explicitly)
+    if any(r[4] == 'switch_default' for r in script):
+        desper.default_loop = loop
+    else:
+        desper.default_loop = desper.SimpleLoop(lambda: 0.0)
     import desper.model.world as model_world
     old_world_class = model_world.World
     envx.loading = None
